@@ -2014,7 +2014,9 @@ class AllConnGraph(nx.DiGraph):
         if pinfo is None:
             src_indices = src_shape = None
         else:
-            src_indices = pinfo.src_indices
+            # one promotes() call shares its _PromotesInfo between all promoted names: every edge needs its own
+            # Indexer because each edge resolves it against the shape of its own source
+            src_indices = None if pinfo.src_indices is None else pinfo.src_indices.copy()
             src_shape = pinfo.src_shape
 
         self.check_add_edge(group, src, tgt, src_indices=src_indices)
